@@ -81,6 +81,38 @@ fn split_loc(s: &str) -> (String, usize, usize) {
     (file, line, col)
 }
 
+/// Lifetime parameter names are not part of an item's identity: the leading named lifetimes of a generic
+/// argument list are renamed by position (`<'src, 'index>` -> `<'a, 'b>`), so a renamed lifetime parameter
+/// leaves every function name in the facts unchanged.
+pub fn canon_lifetimes(l: &str) -> std::borrow::Cow<'_, str> {
+    if !l.contains("<'") {
+        return std::borrow::Cow::Borrowed(l);
+    }
+    thread_local! {
+        static RE: regex::Regex = regex::Regex::new(r"<('[A-Za-z_][A-Za-z0-9_]*(?:, *'[A-Za-z_][A-Za-z0-9_]*)*)").unwrap();
+    }
+    RE.with(|re| {
+        re.replace_all(l, |c: &regex::Captures| {
+            let names: Vec<&str> = c[1].split(',').map(|x| x.trim()).collect();
+            let mut out = String::from("<");
+            let mut next = b'a';
+            for (i, n) in names.iter().enumerate() {
+                if i > 0 {
+                    out.push_str(", ");
+                }
+                if *n == "'_" || *n == "'static" {
+                    out.push_str(n);
+                } else {
+                    out.push('\'');
+                    out.push(next as char);
+                    next += 1;
+                }
+            }
+            out
+        })
+    })
+}
+
 pub fn load(dir: &Path) -> Result<Facts, String> {
     let mut crates = BTreeMap::new();
     let rd = std::fs::read_dir(dir).map_err(|e| format!("{}: {}", dir.display(), e))?;
@@ -95,6 +127,7 @@ pub fn load(dir: &Path) -> Result<Facts, String> {
         let cf: &mut CrateFacts = crates.entry(krate.clone()).or_default();
         cf.name = krate;
         for l in text.lines() {
+            let l = canon_lifetimes(l);
             let f: Vec<&str> = l.split('\t').collect();
             match f.first().copied() {
                 Some("FN") if f.len() >= 4 => {
